@@ -7,6 +7,7 @@ import (
 	"fmt"
 	"reflect"
 	"regexp"
+	"sort"
 	"strconv"
 	"strings"
 	"sync"
@@ -111,6 +112,11 @@ type gen struct {
 	forceK   int // genParts: when > 0, every part is of this form (and forceN of them)
 	forceN   int
 	midHook  func() // runChainOn: called between the chain methods and the finisher
+	// ext: the workload of C01 proper (the engines of C19 and C06, which share this generator, leave it off and
+	// keep the stream of random choices they always had): templates that mix '?' and '@name', named arguments from a
+	// struct, clause.NamedExpr, every slot form in Select / Joins / Raw / Exec / Table templates
+	ext   bool
+	noMix bool // ext: the next templates stay positional (places whose builder knows '?' only)
 }
 
 func newGen(r *core.Rand) *gen {
@@ -384,7 +390,104 @@ func (g *gen) rawCond(root *gorm.DB, depth int) cond {
 		}
 	}
 	q := strings.Join(parts, core.Pick(g.r, []string{" AND ", " OR "}))
+	if g.ext && !g.noMix && g.r.Bool() {
+		q, args = g.mixNamed(q, args)
+	}
 	return cond{desc: fmt.Sprintf("%q %s", q, descArgs(args)), query: q, args: args, leaves: ls}
+}
+
+// isPlainSlice: a slice or array that gorm expands to one placeholder per element.
+func isPlainSlice(v interface{}) bool {
+	if _, ok := v.(driver.Valuer); ok {
+		return false
+	}
+	rv := reflect.ValueOf(v)
+	return rv.IsValid() && (rv.Kind() == reflect.Slice || rv.Kind() == reflect.Array)
+}
+
+// NArgs hands named arguments over as the exported fields of a struct (@N0, @N1, @N2).
+type NArgs struct{ N0, N1, N2 interface{} }
+
+// mixNamed takes a template whose slots are all spelt '?' (one argument per slot, in order) and spells a random
+// non-empty subset of the slots '@name' instead. The values of those slots leave the positional list and come back
+// as named arguments - one sql.Named each, gathered in one map, or both - placed at random in front of, between
+// or behind the positional arguments that remain. Every slot still stands for exactly one argument, so what has
+// to be bound, and where, does not change. A plain slice directly behind '(' stays positional ('IN (@name)' with a
+// slice is not a supported spelling).
+func (g *gen) mixNamed(q string, args []interface{}) (string, []interface{}) {
+	if strings.Count(q, "?") != len(args) || strings.Contains(q, "@") {
+		return q, args
+	}
+	var elig []int
+	i := 0
+	for p := 0; p < len(q); p++ {
+		if q[p] != '?' {
+			continue
+		}
+		if !(p > 0 && q[p-1] == '(' && isPlainSlice(args[i])) {
+			elig = append(elig, i)
+		}
+		i++
+	}
+	if len(elig) == 0 {
+		return q, args
+	}
+	pick := map[int]bool{}
+	perm := g.r.Perm(len(elig))
+	for _, j := range perm[:g.r.Range(1, len(elig))] {
+		pick[elig[j]] = true
+	}
+	prefix := core.Pick(g.r, []string{"n", "arg_", "P", "v"})
+	var sb strings.Builder
+	var pos []interface{}
+	type nv struct {
+		name string
+		val  interface{}
+	}
+	var named []nv
+	i = 0
+	for p := 0; p < len(q); p++ {
+		if q[p] != '?' {
+			sb.WriteByte(q[p])
+			continue
+		}
+		if pick[i] {
+			name := fmt.Sprintf("%s%d", prefix, i)
+			sb.WriteString("@" + name)
+			named = append(named, nv{name, args[i]})
+		} else {
+			sb.WriteByte('?')
+			pos = append(pos, args[i])
+		}
+		i++
+	}
+	var items []interface{}
+	single := len(named)
+	switch g.r.Intn(3) {
+	case 1:
+		single = 0
+	case 2:
+		single = g.r.Intn(len(named) + 1)
+	}
+	m := map[string]interface{}{}
+	for k, x := range named {
+		if k < single {
+			items = append(items, sql.Named(x.name, x.val))
+		} else {
+			m[x.name] = x.val
+		}
+	}
+	if len(m) > 0 {
+		items = append(items, m)
+	}
+	out := append([]interface{}{}, pos...)
+	for _, it := range items {
+		at := g.r.Intn(len(out) + 1)
+		out = append(out, nil)
+		copy(out[at+1:], out[at:])
+		out[at] = it
+	}
+	return sb.String(), out
 }
 
 func descArgs(args []interface{}) string {
@@ -393,6 +496,15 @@ func descArgs(args []interface{}) string {
 		switch x := a.(type) {
 		case *gorm.DB:
 			parts[i] = "<sub-query>"
+		case sql.NamedArg:
+			parts[i] = fmt.Sprintf("sql.Named(%q, %s)", x.Name, strings.Trim(descArgs([]interface{}{x.Value}), "[]"))
+		case map[string]interface{}:
+			var kv []string
+			for k, v := range x {
+				kv = append(kv, fmt.Sprintf("%q: %s", k, strings.Trim(descArgs([]interface{}{v}), "[]")))
+			}
+			sort.Strings(kv)
+			parts[i] = "map[string]interface{}{" + strings.Join(kv, ", ") + "}"
 		case *string:
 			if x != nil {
 				parts[i] = fmt.Sprintf("&%q", *x)
@@ -417,9 +529,17 @@ func (g *gen) namedCond() cond {
 	var ls []*leaf
 	names := map[string]interface{}{}
 	twice := g.r.Chance(1, 4)
+	// ext: the named arguments may also come as the exported fields of a struct (value or pointer)
+	style := -1
+	if g.ext {
+		style = g.r.Intn(4)
+	}
 	for i := 0; i < n; i++ {
 		col := g.kcol()
 		name := fmt.Sprintf("n%d", i)
+		if style >= 2 {
+			name = fmt.Sprintf("N%d", i)
+		}
 		if g.r.Chance(1, 4) {
 			sl, l2 := g.sliceLeaves(col, g.r.Range(1, 3))
 			names[name] = sl
@@ -446,7 +566,16 @@ func (g *gen) namedCond() cond {
 	}
 	q := strings.Join(parts, " AND ")
 	var args []interface{}
-	if g.r.Bool() {
+	if style >= 2 {
+		st := NArgs{N0: names["N0"], N1: names["N1"], N2: names["N2"]}
+		if style == 2 {
+			args = []interface{}{st}
+		} else {
+			args = []interface{}{&st}
+		}
+		return cond{desc: fmt.Sprintf("%q named by the fields of %sNArgs%v", q, map[bool]string{true: "&"}[style == 3], names), query: q, args: args, leaves: ls}
+	}
+	if (style < 0 && g.r.Bool()) || style == 0 {
 		args = []interface{}{names}
 	} else {
 		for k := 0; k < n; k++ {
@@ -547,6 +676,15 @@ func (g *gen) structCond() cond {
 }
 
 func (g *gen) clauseCond() cond {
+	if g.ext && g.r.Chance(1, 8) {
+		// the named-expression builder used directly: '@name' and '?' slots in one template
+		save := g.noMix
+		g.noMix = true
+		c := g.rawCond(nil, 0)
+		g.noMix = save
+		q, args := g.mixNamed(c.query.(string), c.args)
+		return cond{desc: fmt.Sprintf("clause.NamedExpr{%q %s}", q, descArgs(args)), query: clause.NamedExpr{SQL: q, Vars: args}, leaves: c.leaves}
+	}
 	col := g.kcol()
 	switch g.r.Intn(7) {
 	case 0:
@@ -626,6 +764,11 @@ func (g *gen) anyCond(root *gorm.DB, depth int) cond {
 
 // subQuery returns a *gorm.DB usable as an argument: a chain sub-query or a Raw one.
 func (g *gen) subQuery(root *gorm.DB, depth int) (*gorm.DB, []*leaf) {
+	if g.ext && g.r.Chance(1, 3) {
+		// a Raw sub-query over any slot forms, '?' and '@name' mixed
+		c := g.rawCond(root, depth)
+		return root.Raw("SELECT c2 FROM tags WHERE "+c.query.(string), c.args...), c.leaves
+	}
 	if g.r.Bool() {
 		col := g.kcol()
 		l := g.newLeaf(col, "")
